@@ -283,7 +283,8 @@ pub fn gen_c37(seed: u64, thorough: bool) -> Scenario {
   let f = Features::swarm(&everything_features(), &mut wrng);
   let n = 6 + wrng.usize(if thorough { 50 } else { 30 });
   let blocks = gen_chain(&mut wrng, &f, n);
-  let ops = schedule_ops(&mut srng, blocks, false, false, true);
+  let mut ops = schedule_ops(&mut srng, blocks, false, false, true);
+  crate::twin::compete(&mut ops, &mut srng, false);
   Scenario {
     seed,
     profile: "C37/events".into(),
